@@ -73,6 +73,13 @@ func ParseTerm(raw json.RawMessage) (*Term, error) {
 		return t, sub(arr[2])
 	case "b":
 		return t, sub(arr[1])
+	case "clamp":
+		for _, r := range arr[1:] {
+			if err := sub(r); err != nil {
+				return nil, err
+			}
+		}
+		return t, nil
 	case "bin", "cmp":
 		if err := json.Unmarshal(arr[1], &t.F); err != nil {
 			return nil, err
@@ -128,14 +135,27 @@ type Val struct {
 }
 
 type Evaluator struct {
-	D   *DT
-	Pal *Palette
+	D      *DT
+	Pal    *Palette
+	Sub    string             // the operator substituted for the placeholder "OP"
+	CellDT func(id int) *DT   // element type of the allocation a cell belongs to (nil: D)
+}
+
+func (e *Evaluator) f(name string) string {
+	if name == "OP" {
+		return e.Sub
+	}
+	return name
 }
 
 func (e *Evaluator) Eval(t *Term) Val {
 	switch t.Head {
 	case "c":
-		return Val{V: e.Pal.Cell(e.D, t.N), Exact: true}
+		d := e.D
+		if e.CellDT != nil {
+			d = e.CellDT(t.N)
+		}
+		return Val{V: e.Pal.Cell(d, t.N), Exact: true}
 	case "k":
 		return Val{V: e.Pal.Const(e.D, t.N), Exact: true}
 	case "z":
@@ -147,7 +167,7 @@ func (e *Evaluator) Eval(t *Term) Val {
 		if a.Open {
 			return a
 		}
-		v, exact, ok := Unary(e.D, t.F, a.V)
+		v, exact, ok := Unary(e.D, e.f(t.F), a.V)
 		if !ok {
 			return Val{Open: true}
 		}
@@ -157,17 +177,34 @@ func (e *Evaluator) Eval(t *Term) Val {
 		if a.Open || b.Open {
 			return Val{Open: true}
 		}
-		v, exact, ok := Binary(e.D, t.F, a.V, b.V)
+		v, exact, ok := Binary(e.D, e.f(t.F), a.V, b.V)
 		if !ok {
 			return Val{Open: true}
 		}
 		return Val{V: v, Exact: exact && a.Exact && b.Exact}
+	case "clamp":
+		a, lo, hi := e.Eval(t.Args[0]), e.Eval(t.Args[1]), e.Eval(t.Args[2])
+		if a.Open {
+			return a
+		}
+		lt, ok1 := Compare(e.D, "lt", a.V, lo.V)
+		gt, ok2 := Compare(e.D, "gt", a.V, hi.V)
+		if !ok1 || !ok2 {
+			return Val{Open: true}
+		}
+		if lt {
+			return Val{V: lo.V, Exact: true}
+		}
+		if gt {
+			return Val{V: hi.V, Exact: true}
+		}
+		return Val{V: a.V, Exact: a.Exact}
 	case "cmp":
 		a, b := e.Eval(t.Args[0]), e.Eval(t.Args[1])
 		if a.Open || b.Open {
 			return Val{Open: true}
 		}
-		r, ok := Compare(e.D, t.F, a.V, b.V)
+		r, ok := Compare(e.D, e.f(t.F), a.V, b.V)
 		if !ok {
 			return Val{Open: true}
 		}
@@ -357,11 +394,19 @@ func Binary(d *DT, op string, a, b interface{}) (v interface{}, exact bool, ok b
 		v, ok = binInt(op, x, b.(uint64))
 	case float32:
 		var e bool
-		v, e = binF32(op, x, b.(float32))
+		y := b.(float32)
+		if (op == "min" || op == "max") && (x != x || y != y) {
+			return nil, false, false // no Go operator defines min/max of NaN: left open
+		}
+		v, e = binF32(op, x, y)
 		return v, e, true
 	case float64:
 		var e bool
-		v, e = binF64(op, x, b.(float64))
+		y := b.(float64)
+		if (op == "min" || op == "max") && (x != x || y != y) {
+			return nil, false, false
+		}
+		v, e = binF64(op, x, y)
 		return v, e, true
 	case complex64:
 		y := b.(complex64)
@@ -588,6 +633,21 @@ func unC128(op string, a complex128) (complex128, bool, bool) {
 
 // Unary evaluates f(a) with Go's routine of the element type.
 func Unary(d *DT, op string, a interface{}) (v interface{}, exact bool, ok bool) {
+	if op == "apply" {
+		switch x := a.(type) {
+		case bool:
+			return !x, true, true
+		case string:
+			return x + "!", true, true
+		}
+		three, one := d.FromInt(3), d.FromInt(1)
+		m, _, ok1 := Binary(d, "mul", a, three)
+		if !ok1 {
+			return nil, false, false
+		}
+		r, _, ok2 := Binary(d, "add", m, one)
+		return r, true, ok2
+	}
 	switch x := a.(type) {
 	case int:
 		v, ok = unSigned(op, x)
